@@ -58,7 +58,8 @@ pub fn shape_module(feat: &[String]) -> Vec<u8> {
         w += "  (type (func))\n  (type (func (param i32 f64) (result i64)))\n";
     }
     if has("imports") {
-        w += "  (import \"env\" \"f\" (func $if (type $t0)))\n  (import \"env\" \"g\" (global $ig i32))\n";
+        // a non-function import ahead of named function imports (function index != import position)
+        w += "  (import \"env\" \"g\" (global $ig i32))\n  (import \"env\" \"f\" (func $if (type $t0)))\n  (import \"env\" \"f2\" (func $if2 (type $t0)))\n";
         if has("memory") {
             w += "  (import \"env\" \"m\" (memory 1 2))\n";
         }
